@@ -70,7 +70,7 @@ pub fn property() -> Property {
         assumptions: &["reference attack geometry is correct (used by the perft-validated reference move generator)"],
         subchecks: vec![SubCheck {
             name: "generated_positions",
-            driver: Driver::Generated { gen: gen_pos_case, genome_len: 192, quick: 500_000, thorough: 10_000_000 },
+            driver: Driver::Generated { gen: gen_pos_case, genome_len: 192, quick: 2_000_000, thorough: 16_000_000 },
             check: check_case,
             configs: Configs::Both,
             required: &["in_check", "double_check", "pawn_attacker", "distant_line_attacker"],
